@@ -817,9 +817,20 @@ def damage_cases(rng, quick=True):
     b = base_rest()
     sub(b, "a.go", "\tshoot.RestClient[Client]\n", "\tshoot.RestClient[Client]\n\terror\n")
     add(b, ["rest", "-type=Client"], "none", outs=["x"], tags=["error after RestClient"])
+    # (an interface mixing ctx and ctx-less methods used to fail here; repaired in /repo 230b9e4: now a valid run)
     b = base_rest()
     sub(b, "a.go", "AddUser(ctx context.Context, u *User)", "AddUser(u *User)")
-    add(b, ["rest", "-type=Client"], "formatFail", tags=["mixed ctx / no-ctx methods"])
+    add(b, ["rest", "-type=Client"], "none", outs=["x"], tags=["mixed ctx / no-ctx methods"])
+    # the emitted string literal keeps the backslash of the path verbatim: "unknown escape sequence" in the format step
+    b = base_rest()
+    sub(b, "a.go", 'Get("/users/{id}")', 'Get("/users\\d/{id}")')
+    add(b, ["rest", "-type=Client"], "formatFail", tags=["backslash in the path"])
+    # the implementation struct is named firstLower(interface): `type type struct` / `type func struct`
+    for kw in ["Type", "Func"]:
+        b = base_rest()
+        b["files"]["a.go"] = re.sub(r"\bClient\b", kw, b["files"]["a.go"])     # (not the Client in RestClient)
+        add(b, ["rest", "-type=" + kw], "formatFail", tags=["interface named like a keyword"])
+        add(b, ["rest", "-type=*"], "formatFail", tags=["interface named like a keyword"])
 
     # ---- flag VALUES near the valid ones, together with the flags that make the value matter ----
     for v in TAGCASE_NEAR:
